@@ -193,6 +193,12 @@ SUBDIVS = (1, 2, 3, 4, 8, 16, 48, 192)
 FINE_SUBDIVS = (5, 7, 11, 13, 25, 64, 100, 128, 256, 400, 768, 1000)
 #: unusual subdivisions for NOTE lines (objects only, never tempo lines): positions are exact rationals for the reader
 NOTE_FINE_SUBDIVS = (5, 7, 480, 1000)
+#: (dimension 18) further subdivisions, coarser and finer than the 1/96-beat family the timing engine snaps to: with these objects and tempo
+#: changes sit on beat k + 1/24, k + 1/32, k + 1/96 (and, with 768, k + 1/192: off that grid, the class `tempo_spacing_off_snap_grid`)
+MORE_SUBDIVS = (6, 12, 24, 32, 96, 128, 384, 768)
+#: (dimension 16) ids that have a special meaning only when a header says so: the conventional / default #LNOBJ ids.  Without that header
+#: (or with another id in it) they are ordinary object ids
+SPECIAL_IDS = ("ZZ", "ZY", "02", "AA")
 TOL_MS = 1e-3
 
 TITLES = ["plain title", "Title with  two spaces", "searoad tracks =side blue= (LN-Applied)", "海の道 -remix-", "a:b#c", "7"]
@@ -233,6 +239,8 @@ def gen_case(rng, layout_name, *, subdivs=SUBDIVS, n_lines=None, ln=False, order
     lay = layout_of(layout_name)
     lanes = note_lanes(lay)
     chans = sorted(c.decode() for c in lanes)
+    if extras and subdivs is SUBDIVS and rng.random() < 0.25:
+        subdivs = SUBDIVS + MORE_SUBDIVS  # positions on other grids than the default ones (1/24, 1/32, 1/96, 1/192 of a beat)
     lnobj = rng.choice(["ZZ", "ZY", "02", "AA"]) if ln or rng.random() < 0.3 else None
     if content == "notes_only":
         tempo = "none"
@@ -332,8 +340,126 @@ def gen_case(rng, layout_name, *, subdivs=SUBDIVS, n_lines=None, ln=False, order
                     prev_tail = False
     case = dict(layout=layout_name, header=header, others=others, lnobj=lnobj, wav=wav, exbpm=exbpm, lines=lines, via_file=via_file, decor=rng.random() < 0.5)
     if extras:
+        add_dimensions_r5(rng, case, content=content, fine_tempo=fine_tempo)
         add_dimensions(rng, case, jp=jp)
+        if case.get("distinct"):
+            _make_distinct(case)
     return case
+
+
+def _note_slots(case):
+    """[(line index, slot key)] of the visible-note objects that are not #LNOBJ ends"""
+    lanes = note_lanes(layout_of(case["layout"]))
+    ln = (case["lnobj"] or "").upper()
+    return [(i, j) for i, l in enumerate(case["lines"]) if l["ch"].encode() in lanes for j in sorted(l["slots"], key=int) if l["slots"][j].upper() != ln or not ln]
+
+
+def add_dimensions_r5(rng, case, content="any", fine_tempo=False):
+    """Further input dimensions (each on a fraction of the texts; all recorded in `case`; run BEFORE `add_dimensions`, which lays out the file):
+
+      special ids (16)     the ids that are long-note END markers only when #LNOBJ names them (ZZ - also the library's default for that
+                           field -, ZY, 02, AA) used as ORDINARY object ids of visible notes in texts WITHOUT #LNOBJ and in texts whose #LNOBJ
+                           names another id: as first object of a lane, after another object, with and without a #WAV entry; the id that IS
+                           the #LNOBJ (or ZZ) also as a BGM object (channel 01) and as a #BPMxx id used on channel 08, where it is no marker
+      all headers (14)     every other header of the pools at once, all values (also title / artist / level / #BPM / #BPMxx / #WAVxx values)
+                           pairwise different, so that a value retained under the wrong field shows
+      order of kinds (17)  a tempo change after the last note (measures beyond all notes); a BGM / BGA object as the very first data line,
+                           at measure 0 position 0"""
+    lanes = note_lanes(layout_of(case["layout"]))
+    chans = sorted(c.decode() for c in lanes)
+    ln = (case["lnobj"] or "").upper()
+    # ---- 16: would-be-special ids as ordinary ids
+    if content in ("any", "notes_only") and rng.random() < 0.3:
+        specials = [s for s in SPECIAL_IDS if s != ln]
+        if not ln and rng.random() < 0.6:
+            chosen = ["ZZ"] + rng.sample(specials[1:], rng.choice([0, 0, 1]))  # no #LNOBJ header: the id the library would default to
+        else:
+            chosen = rng.sample(specials, rng.choice([1, 1, 2]))
+        low = {k.upper() for k in case["wav"] if k != k.upper()}
+        chosen = [s for s in chosen if s not in low and s.lower() not in case["wav"]]
+        for n, s in enumerate(chosen):
+            if rng.random() < 0.7 and s not in case["wav"]:
+                case["wav"][s] = f"special_{s}_{n}.wav"
+            slots = _note_slots(case)
+            if not slots or rng.random() < 0.3:
+                # a line of its own: the id as the only / first object of a lane's line
+                m = rng.randrange(0, 6)
+                ch = rng.choice(chans)
+                taken = {4 * l["m"] + Fraction(4 * int(j), l["d"]) for l in case["lines"] if l["ch"] == ch for j in l["slots"]}
+                d = rng.choice([1, 2, 4, 8])
+                free = [j for j in range(d) if 4 * m + Fraction(4 * j, d) not in taken]
+                if free and not (case["lnobj"] and any(l["ch"] == ch for l in case["lines"])):
+                    case["lines"].insert(rng.randrange(0, len(case["lines"]) + 1), dict(m=m, ch=ch, d=d, slots={str(rng.choice(free)): s}))
+                    slots = _note_slots(case)
+            for i, j in rng.sample(slots, min(len(slots), rng.choice([1, 2, 3]))):
+                case["lines"][i]["slots"][j] = s
+        case["special_ids_as_ordinary"] = chosen
+    if case["lnobj"] and rng.random() < 0.25 and case["lnobj"].lower() not in {k.lower() for k in case["wav"]}:
+        case["wav"][case["lnobj"]] = "ln_end_sound.wav"  # the marker id has a #WAV entry of its own (the hold carries the sample of its HEAD's id)
+    if rng.random() < 0.12:
+        s = case["lnobj"] or "ZZ"
+        if rng.random() < 0.6:
+            case["lines"].insert(rng.randrange(0, len(case["lines"]) + 1), dict(m=rng.randrange(0, 6), ch="01", d=4, slots={str(rng.randrange(4)): s, "3": "ZZ"}))
+        if case["exbpm"] and s not in case["exbpm"] and s.lower() not in case["exbpm"]:
+            old = rng.choice(sorted(case["exbpm"]))
+            case["exbpm"] = {(s if k == old else k): v for k, v in case["exbpm"].items()}
+            for l in case["lines"]:
+                if l["ch"] == "08":
+                    l["slots"] = {j: (s if v == old else v) for j, v in l["slots"].items()}
+        case["marker_id_in_other_tables"] = s
+    # ---- 17: a tempo change after the last note; a BGM object as the first data line at measure 0 position 0
+    if content == "any" and not fine_tempo and rng.random() < 0.12:
+        top = max([l["m"] for l in case["lines"]] + [5])
+        if case["exbpm"] and rng.random() < 0.5:
+            case["lines"].insert(rng.randrange(0, len(case["lines"]) + 1), dict(m=top + rng.choice([1, 2]), ch="08", d=rng.choice([1, 2, 3, 4]), slots={"0": rng.choice(sorted(case["exbpm"]))}))
+        else:
+            case["lines"].insert(rng.randrange(0, len(case["lines"]) + 1), dict(m=top + rng.choice([1, 2]), ch="03", d=rng.choice([1, 2, 4, 8]), slots={"0": "%02X" % rng.choice([45, 90, 180, 250])}))
+    if content != "empty" and rng.random() < 0.1:
+        case["lines"].insert(0, dict(m=0, ch=rng.choice(["01", "04"]), d=rng.choice([1, 4]), slots={"0": rng.choice(sorted(case["wav"]) or ["01"])}))
+    # ---- 14: every header at once; the values are made pairwise different by `_make_distinct` after the text dimensions were drawn
+    if rng.random() < 0.2:
+        for k, v in OTHERS + OTHERS_MORE:
+            case["others"].setdefault(k, v)
+        case["distinct"] = True
+
+
+def _make_distinct(case):
+    """Pairwise different values (values only: the number and order of the lines stay): every text header differs from every other text
+    header, every numeric header from every other numeric header and from #BPM, every #BPMxx from #BPM and from each other, every #WAV name
+    from every other.  A duplicate gets its key appended (texts) or is moved to the next free number."""
+    h, o = case["header"], case["others"]
+    seen = set()
+
+    def is_num(v):
+        return re.fullmatch(r"[0-9]+\.?[0-9]*", v) is not None
+
+    for d in (h, o):
+        for k in list(d):
+            if k == "BPM":
+                continue
+            v = d[k]
+            if is_num(v):
+                while v in seen or ("BPM" in h and float(v) == float(h["BPM"])):
+                    v = str(int(float(v)) + 1)
+            elif v in seen:
+                v = f"{v} ({k.lower()})"
+            seen.add(v)
+            d[k] = v
+    used = {float(h["BPM"])} if "BPM" in h else set()
+    pool = [x for x in EXBPM_POOL + EXBPM_POOL_MORE]
+    for k in list(case["exbpm"]):
+        v = case["exbpm"][k]
+        if float(v) in used:
+            v = next((x for x in pool if float(x) not in used), str(max(used) + 1.5))
+        used.add(float(v))
+        case["exbpm"][k] = v
+    names = set()
+    for k in list(case["wav"]):
+        v = case["wav"][k]
+        if v in names:
+            v = f"{k}_{v}"
+        names.add(v)
+        case["wav"][k] = v
 
 
 def add_dimensions(rng, case, jp=True):
@@ -521,6 +647,27 @@ def classify(case):
     m0_not_first = has_m0 and not (first_tempo["m"] == 0 and min(int(j) for j in first_tempo["slots"]) == 0)
     return dict(ln_sensitive=ln_sensitive, fine_tempo=fine, m0_override_not_first=m0_not_first,
                 no_bpm_header="BPM" not in case["header"], lower_keys=case.get("key_case") == "lower")
+
+
+def _r5_flags(case):
+    """which of the round-5 dimensions a case exercises (computed from the text itself, not from the generator's marks)"""
+    lanes = note_lanes(layout_of(case["layout"]))
+    ln = (case["lnobj"] or "").upper()
+    notes = [(4 * l["m"] + Fraction(4 * int(j), l["d"]), v) for l in case["lines"] if l["ch"].encode() in lanes for j, v in l["slots"].items()]
+    tempo = [4 * l["m"] + Fraction(4 * int(j), l["d"]) for l in case["lines"] if l["ch"] in ("03", "08") for j in l["slots"]]
+    first = case["lines"][0] if case["lines"] else None
+    texts = [v for k, v in list(case["header"].items()) + list(case["others"].items()) if k != "BPM"]
+    return dict(
+        ZZ_ordinary_without_lnobj=not ln and any(v.upper() == "ZZ" for _, v in notes),
+        special_id_ordinary_with_other_lnobj=bool(ln) and any(v.upper() in SPECIAL_IDS and v.upper() != ln for _, v in notes),
+        marker_id_in_other_tables=bool(case.get("marker_id_in_other_tables")), marker_id_has_wav_entry=bool(ln) and ln in {k.upper() for k in case["wav"]},
+        all_headers_pairwise_different=len(case["others"]) >= len(OTHERS) + len(OTHERS_MORE) and len(set(texts)) == len(texts),
+        tempo_change_after_last_note=bool(notes and tempo) and max(tempo) > max(b for b, _ in notes),
+        note_before_first_tempo_change=bool(notes and [t for t in tempo if t > 0]) and min(b for b, _ in notes) < min(t for t in tempo if t > 0),
+        first_data_line_is_bgm=bool(first) and first["ch"] in ("01", "04"),
+        first_data_line_is_tempo=bool(first) and first["ch"] in ("03", "08"),
+        other_grid_subdivisions=any(l["d"] in MORE_SUBDIVS for l in case["lines"]),
+    )
 
 
 # =============================================================================================== one case
@@ -992,6 +1139,43 @@ def _grid_small_cases():
                 yield case
 
 
+def _grid_special_ids():
+    """(dimension 16) every layout x every id that is a long-note end marker only when #LNOBJ says so (ZZ - the library's default for the
+    field -, ZY, 02, AA) as an ORDINARY id: text without #LNOBJ / with #LNOBJ naming another id (which does close a long note in the same
+    text); the id as the first object of a lane, right after another object of the lane, in a chord; with / without a #WAV entry; the id
+    also as BGM object and as #BPMxx id used on channel 08.  Alternating read / read_file."""
+    k = 0
+    for name in LAYOUT_NAMES:
+        chans = sorted(c.decode() for c in note_lanes(layout_of(name)))
+        a, b, c = chans[0], chans[1], chans[-1]
+        for sid in SPECIAL_IDS:
+            for lnobj in (None, "ZX" if sid != "ZZ" else "AA", "ZZ" if sid != "ZZ" else "ZY"):
+                for with_wav in (True, False):
+                    k += 1
+                    wav = {"01": "kick.wav", "0B": "snare.wav"}
+                    if with_wav:
+                        wav[sid] = "crash.wav"
+                    lines = [
+                        dict(m=1, ch=a, d=4, slots={"0": "01"}),
+                        dict(m=2, ch=a, d=4, slots={"0": "01", "2": sid}),  # the id right after another object of the lane
+                        dict(m=2, ch=b, d=1, slots={"0": sid}),  # the id as the first object of a lane (and in a chord)
+                        dict(m=3, ch=b, d=2, slots={"1": "0B"}),
+                        dict(m=3, ch=a, d=1, slots={"0": sid}),
+                        dict(m=1, ch="01", d=2, slots={"1": sid}),  # BGM object with that id
+                        dict(m=2, ch="08", d=4, slots={"1": sid}),  # #BPMxx with that id
+                    ]
+                    if lnobj and with_wav:
+                        wav[lnobj] = "ln_end_sound.wav"  # a #WAV entry for the marker id itself
+                    if lnobj:
+                        lines += [dict(m=4, ch=c, d=2, slots={"0": sid, "1": lnobj}), dict(m=5, ch=c, d=1, slots={"0": "01"})]  # the id as the HEAD of a long note
+                    via_file = k % 2 == 0
+                    yield dict(
+                        layout=name, header=dict(TITLE="special ids", ARTIST="a", PLAYLEVEL="3", BPM="150"), others={}, lnobj=lnobj, wav=wav,
+                        exbpm={sid: "88.5"}, lines=lines, via_file=via_file, decor=False, special_ids_as_ordinary=[sid],
+                        io=dict(call="kw", eol="crlf", final_eol=True, tail=0, path="str", ext=".bms") if via_file else dict(call="kw", line_end=""),
+                    )
+
+
 def _witness_new_classes():
     """smallest members of the two header classes that have clauses of their own"""
     base = dict(layout="BME", others={}, lnobj=None, wav={"01": "a.wav"}, exbpm={}, via_file=False, decor=False)
@@ -1012,7 +1196,8 @@ def bms_read_vs_interpreter(rep):
     n_old_grid = len(grid)
     text_grid = list(_grid_text_cases())
     small_grid = list(_grid_small_cases())
-    grid += text_grid + small_grid + list(_witness_new_classes())
+    special_grid = list(_grid_special_ids())
+    grid += text_grid + small_grid + list(_witness_new_classes()) + special_grid
     row1, kana, edge = _sjis_chars()
     rep.bound = (
         f"grid: {n_old_grid} texts = single objects (5 layouts x every lane x subdivisions {SUBDIVS} x slot first/middle/last x integer|extended tempo change before it"
@@ -1022,6 +1207,8 @@ def bms_read_vs_interpreter(rep):
         f"small grid: {len(small_grid)} texts = 5 layouts x (no data line | one object at measure 0 position 0 | one tempo change, no object | object exactly on a tempo change | chord | measure 999 | only long notes) "
         f"x (full header | only #BPM, no #WAV table | headers after the data), alternating read/read_file, layout passed by keyword / positionally / through an instance / omitted (BME), "
         f"line ends '' / LF / CRLF (lines) and CRLF / LF / mixed, trailing blank lines, no final line end, str / pathlib.Path, .bms/.bme/.pms (file); + 2 witnesses of the header classes; "
+        f"special-id grid: {len(special_grid)} texts = 5 layouts x ids {SPECIAL_IDS} (long-note end markers only when #LNOBJ names them; ZZ is also the library's default for the field) used as ORDINARY ids "
+        f"x (no #LNOBJ | #LNOBJ naming another id, twice) x (with | without #WAV entry): the id first in its lane, right after another object, in a chord, as head of a long note, as BGM object and as #BPMxx id on channel 08; "
         f"random: {N} texts over 5 layouts, 0..13 data lines in measures 0..5 (1/10 shifted up to measure 999), subdivisions {SUBDIVS}, channels 03/08 at any slot, #LNOBJ long notes, repeated (measure, channel) lines, "
         f"shuffled lines, #WAV table (possibly empty), BGM/BGA lines, Shift-JIS header text, 1/4 through read_file; plus classes: LN with fully shuffled lines, tempo changes at subdivisions {FINE_SUBDIVS} (distance between consecutive tempo events not a multiple of any 1/d beat, d <= 96); "
         f"mixture on every random text (add_dimensions): absent #TITLE/#ARTIST/#PLAYLEVEL, {len(OTHERS_MORE)} more other headers, keys without value, '#wavXX' / '#bpmXX' table keys, ':' ',' ';' '#' '//' tab and Shift-JIS punctuation / double-byte space / half-width kana in values, #WAV names and comments, "
@@ -1030,7 +1217,10 @@ def bms_read_vs_interpreter(rep):
         f"{rep.n(30, 300)} pairs of random texts read A, B, A in one process (state between calls); "
         f"second reads: 15 % of the random texts (and a quarter of the small grid) are read a second time after the FIRST result was edited in place (offsets, columns, samples, tempo, "
         f"#WAV / #BPMxx / other-header tables, title ...); 30 % of the read_file texts (half of the small grid's) are read from a path that held another - longer (60 more lines, other #WAV names) or "
-        f"shorter (5 lines) - file, itself read first: in both cases the second result must have the values the text gave on the first read; 5 % of the lines with <= 16 slots carry an object in every slot"
+        f"shorter (5 lines) - file, itself read first: in both cases the second result must have the values the text gave on the first read; 5 % of the lines with <= 16 slots carry an object in every slot; "
+        f"round-5 dimensions on the random texts (add_dimensions_r5): 30 % use 1-2 of the ids {SPECIAL_IDS} that the text's #LNOBJ does NOT name (60 % of the texts without #LNOBJ: ZZ) as ordinary ids of 1-3 visible notes, with / without #WAV entry, "
+        f"also on a line of their own; 12 % carry the #LNOBJ id (or ZZ) as BGM object and as #BPMxx id; 25 % of the texts with #LNOBJ give the marker id a #WAV entry of its own; 20 % carry all {len(OTHERS) + len(OTHERS_MORE)} other headers at once with title / artist / level / every other header / #BPM / every #BPMxx / every #WAV name pairwise different; "
+        f"12 % have a tempo change one or two measures after the last object, 10 % a BGM / BGA object at measure 0 position 0 as first data line; 25 % draw subdivisions also from {MORE_SUBDIVS} (objects and tempo changes on 1/24, 1/32, 1/96, 1/192 of a beat)"
     )
     rep.rule = ("a case is one BMS text + layout + the way it is handed to the reader (or a pair of such); non-trivial when it has >= 1 tempo event after beat 0 and >= 1 note object, or a long note; "
                 "a pair is non-trivial when the two texts differ in header tables and objects")
@@ -1052,6 +1242,7 @@ def bms_read_vs_interpreter(rep):
             full_line=any(len(l["slots"]) == l["d"] > 1 for l in case["lines"]),
             no_bpm_header="BPM" not in case["header"], lower_case_keys=case.get("key_case") == "lower", lower_case_table_keys=case.get("key_case") == "lower_tables",
         )
+        flags.update(_r5_flags(case))
         for k, v in flags.items():
             dims[k] = dims.get(k, 0) + bool(v)
 
